@@ -124,6 +124,8 @@ def processLine (cfg : Cfg) (p : Parser) (raw : Bytes) : Except Err (Parser × B
     | .request =>
       match splitN1 SP 2 line with
       | [m, u, v] =>
+        -- `len(parts) == 3 and parts[0]`: an empty method is an invalid request line
+        if m.isEmpty then .error .httpProtocol else
         let p := { p with method := some m, isTunnel := p.isTunnel || m == cfg.connectMethod }
         match Px.Url.fromBytes cfg.allowedSchemes u with
         | .error e => .error (urlErr e)
